@@ -1,7 +1,7 @@
 META = dict(
     engine='seqx+cosched',
     technique='explicit-state model checking: BFS to closure over all reachable contents of the real parsec_hbbuffer_t (sizes 1..4) and all reachable forests of the real scheduler max-heap (insert/remove/split_and_steal over 5-8 tasks with tied priorities) against set models; plus preemption-bounded exhaustive schedule enumeration (CHESS) of concurrent push_all / push_all_by_priority / pop_best on one buffer',
-    level_text='Sequential: for buffer sizes 1..4 and N tasks (N=5,6,7 quick; 5..8 thorough) every reachable buffer content x every operation (push_all and push_all_by_priority of every ring of <= 3 free tasks at distance 0, single tasks at distance 1/2, pop_best) is executed on the real code: buffer + parent store = pushed - popped as sets, overflow only when the buffer is full, pop_best returns a maximal-priority held task. Every reachable forest of up to 3 heaps over the N tasks x every insert/remove/split_and_steal is executed: every task in exactly one heap or returned exactly once, returned task has the maximal priority, top/priority/size fields right, max-heap order, complete-tree shape. Concurrent: every schedule with <= b preemptions (b=2 quick, 4 thorough) of seven 2-3 thread scripts on buffers of size 1-2 (forced overflow and CAS contention, one ABA seeker): nothing lost or duplicated, then a quiescent drain pops in non-increasing priority.',
+    level_text='Sequential: for buffer sizes 1..4 and N tasks (N=5,6 quick; 5..8 thorough) every reachable buffer content x every operation (push_all and push_all_by_priority of every ring of <= 3 free tasks at distance 0, single tasks at distance 1/2, pop_best) is executed on the real code: buffer + parent store = pushed - popped as sets, overflow only when the buffer is full, pop_best returns a maximal-priority held task. Every reachable forest of up to 3 heaps over the N tasks x every insert/remove/split_and_steal is executed: every task in exactly one heap or returned exactly once, returned task has the maximal priority, top/priority/size fields right, max-heap order, complete-tree shape. Concurrent: every schedule with <= b preemptions (b=2 quick, 4 thorough) of seven 2-3 thread scripts on buffers of size 1-2 (forced overflow and CAS contention, one ABA seeker): nothing lost or duplicated, then a quiescent drain pops in non-increasing priority.',
     level_note='push_all_by_priority is only given rings in decreasing priority order (its contract). Priority preference under concurrency is not claimed (documented ABA window); sequential consistency at instrumented accesses; <= 3 threads, <= 2 operations per thread.',
 )
 RULE = ("seqx legs: BFS over operation histories on the real objects, states = distinct canonical contents (buffer: slot -> task; heaps: sorted pre-order encodings of every heap), every transition compared with the set model "
@@ -12,7 +12,7 @@ def build_conc(ctx):
     return ctx.compile('hk-shm', 'hbbconc', ['hbb_conc.c'], engine='cosched')
 def check(ctx):
     quick = ctx.tier == 'quick'
-    for nt in ([5, 6, 7] if quick else [5, 6, 7, 8]):
+    for nt in ([5, 6] if quick else [5, 6, 7, 8]):
         ctx.run_engine(build_seq(ctx, nt), ['--outdir', '/verif/out', '--deadline', '600'] + ([] if quick else ['--thorough']), label='hbbseq%d' % nt, timeout=1200)
     ctx.run_cosched(build_conc(ctx), 2 if quick else 4, deadline=(100 if quick else 900), label='hbbconc')
     return ctx.finish(RULE, ["sequential consistency at instrumented accesses (no weak-memory effects)",
